@@ -665,4 +665,74 @@ theorem wf_keep (FS : List FnDef) (live : List Bytes) (h : WF FS) : WF (keep FS 
   · intro f hf g hg; exact h.disjoint f (hsub f hf) g (hsub g hg)
   · intro f hf; exact h.bodyOk f (hsub f hf)
 
+-- the decidable well-formedness check implies the hypotheses -------------------------------------
+
+theorem nodupB_sound (l : List Bytes) (h : nodupB l = true) : l.Nodup := by
+  induction l with
+  | nil => exact List.nodup_nil
+  | cons x xs ih =>
+    simp only [nodupB, Bool.and_eq_true, Bool.not_eq_true', List.contains_eq_mem, decide_eq_false_iff_not] at h
+    exact List.nodup_cons.mpr ⟨h.1, ih h.2⟩
+
+theorem fnsWF_sound (FS : List FnDef) (h : fnsWF FS = true) : WF FS := by
+  simp only [fnsWF, Bool.and_eq_true, List.all_eq_true, bne_iff_ne, ne_eq, Option.isNone_iff_eq_none] at h
+  obtain ⟨hnd, hall⟩ := h
+  constructor
+  · exact nodupB_sound _ hnd
+  · intro f hf; exact (hall f hf).1.1.1
+  · intro f hf; exact (hall f hf).1.1.2
+  · intro f hf g hg; exact (hall f hf).2 g hg
+  · intro f hf; exact (hall f hf).1.2
+
+/-- the whole program, with the function list taken as given (no pruning):
+    `(a (q . MAIN) (c (q . FUNCS) 1))`. -/
+def compileWith (FS : List FnDef) (params : Rich) (body : Expr) : Option Val :=
+  match compileE (Lang.envShape (FS.map (·.name)) params) body, compileFns (FS.map (·.name)) FS with
+  | some main, some entries =>
+    some (.pair (.atom [2]) (.pair (qv main)
+      (.pair (.pair (.atom [4]) (.pair (qv (codeTree (entries.map (·.2)) (entries.length + 1))) (.pair (.atom [1]) Val.nil))) Val.nil)))
+  | _, _ => none
+
+theorem compileWith_correct (ops : OpSem) (hops : OpsCore ops) (FS : List FnDef) (hwf : WF FS)
+    (params : Rich) (hpat : Lang.patOk params = true)
+    (hdis : ∀ g ∈ FS, Lang.nameLookup g.name params = none)
+    (body : Expr) (hok : exprOk body = true) (code : Val)
+    (hc : compileWith FS params body = some code) (n : Nat) (args v : Val)
+    (he : evalCore ops FS n params args body = .ok v) :
+    Evaluates ops code args v := by
+  unfold compileWith at hc
+  cases hm : compileE (Lang.envShape (FS.map (·.name)) params) body with
+  | none => rw [hm] at hc; simp at hc
+  | some main =>
+    cases hent : compileFns (FS.map (·.name)) FS with
+    | none => rw [hm, hent] at hc; simp at hc
+    | some entries =>
+      rw [hm, hent] at hc; simp at hc; subst hc
+      have hmain := (compile_sound ops FS entries hops hwf hent n).1 params args body v main hpat hdis hok he hm
+      refine ev_apply ops (qv main) _ args main (.pair (funcs entries) args) v (ev_quote ops main args) ?_ hmain
+      exact ev_cons ops hops (qv (funcs entries)) (.atom [1]) args (funcs entries) args
+        (ev_quote ops _ args) (ev_env ops args)
+
+theorem compileCore_eq (P : Prog) :
+    compileCore P = compileWith (keep P.fns (liveSet P)) P.params P.body := by
+  rfl
+
+/-- LAYER B: the core compiler model is correct — for every operator table implementing `i`
+    and `c`, every well-formed core program, every argument value: if the source meaning is
+    `v`, the emitted CLVM evaluates to `v` under the consensus evaluator. -/
+theorem compileCore_correct (ops : OpSem) (hops : OpsCore ops) (P : Prog) (hwf : progWF P = true)
+    (code : Val) (hc : compileCore P = some code) (n : Nat) (args v : Val)
+    (he : evalProg ops P n args = .ok v) : Evaluates ops code args v := by
+  simp only [progWF, Bool.and_eq_true, List.all_eq_true, Option.isNone_iff_eq_none] at hwf
+  obtain ⟨⟨⟨⟨⟨hf, hp⟩, hb⟩, hd⟩, hcl⟩, hcalls⟩ := hwf
+  rw [compileCore_eq] at hc
+  have hwfK := wf_keep P.fns (liveSet P) (fnsWF_sound P.fns hf)
+  have hcalls' : (callsOf P.body).all (liveSet P).contains = true := by
+    rw [List.all_eq_true]; exact hcalls
+  have he' := (eval_keep ops P.fns (liveSet P) hcl n).1 P.params args P.body v hcalls' he
+  refine compileWith_correct ops hops (keep P.fns (liveSet P)) hwfK P.params hp ?_ P.body hb code hc n args v he'
+  intro g hg
+  unfold keep at hg
+  exact hd g (List.mem_filter.mp hg).1
+
 end Core
